@@ -285,6 +285,60 @@ Theorem C16_close_fast_path_refuted :
 Proof. exact close_fast_path_refuted. Qed.
 Print Assumptions C16_close_fast_path_refuted.
 
+(* (10) connection_released_once — SessionManager.CloseConnection (repository order: delete the map entry under connLock,
+   THEN release) against any number of further CloseConnection calls for the same connection and SessionManager.Close calls,
+   ANY schedule: the release body (Stream.Close, RawConn.Close) never runs twice; once every closer has returned it ran
+   exactly once and the entry is gone. *)
+Theorem C16_connection_released_once :
+  forall (ts : list ipc) (sched : list nat),
+  forallb i_initial ts = true ->
+  let s := run _ _ (istep true) (iinit, ts) sched in
+  i_released (fst s) <= 1 /\
+  (forallb i_done (snd s) = true -> snd s <> [] -> i_released (fst s) = 1 /\ i_present (fst s) = false).
+Proof. intros ts sched H. exact (connection_released_once ts sched H). Qed.
+Print Assumptions C16_connection_released_once.
+
+(* release first, delete afterwards: a second CloseConnection, or SessionManager.Close, arriving while the first closer is
+   releasing the connection releases it again *)
+Theorem C16_release_before_remove_refuted :
+  exists sched, i_released (fst (run _ _ (istep false) (iinit, [ILookup; ILookup]) sched)) = 2.
+Proof. exact release_before_remove_refuted. Qed.
+Print Assumptions C16_release_before_remove_refuted.
+Theorem C16_release_before_remove_mgr_refuted :
+  exists sched, i_released (fst (run _ _ (istep false) (iinit, [ILookup; IMgrClose]) sched)) = 2.
+Proof. exact release_before_remove_mgr_refuted. Qed.
+Print Assumptions C16_release_before_remove_mgr_refuted.
+
+(* (11) dispose.ResourceManager.  For EVERY history of Register / Unregister / DisposeAll the registered names are distinct
+   and a DisposeAll disposes each registered resource exactly once, in reverse registration order, and leaves nothing
+   registered. *)
+Theorem C16_resource_manager_dispose_all_once :
+  forall ops : list rmop,
+  let s := rm_run ops in let s' := rm_apply s RmDisposeAll in
+  rm_order s' = [] /\ rm_log s' = rm_log s ++ rev (map fst (rm_order s)) /\ NoDup (rev (map fst (rm_order s))).
+Proof. intros ops. exact (rm_dispose_all_once ops). Qed.
+Print Assumptions C16_resource_manager_dispose_all_once.
+
+(* DisposeWithTimeout (repository: result channel of capacity 1): whatever the caller, the timer and the other threads have
+   done — in particular for both orders of {timeout fires, DisposeAll finishes} — once the slow resource has finished the
+   helper goroutine needs two steps of its own and is gone: its send never blocks. *)
+Theorem C16_timeout_helper_always_finishes :
+  forall (sh : tsh2) (ls : list tpc2) (h : nat),
+  t_gate sh = true ->
+  (nth_error ls h = Some HRun \/ nth_error ls h = Some HSend \/ nth_error ls h = Some HDone) ->
+  nth_error (snd (run _ _ (tstep2 true) (sh, ls) [h; h])) h = Some HDone.
+Proof. intros sh ls h H1 H2. exact (timeout_helper_always_finishes sh ls h H1 H2). Qed.
+Print Assumptions C16_timeout_helper_always_finishes.
+
+(* unbuffered result channel: timeout fires, the caller returns, the slow resource finishes, the helper parks in its send
+   and no schedule ever moves it again *)
+Theorem C16_unbuffered_result_channel_refuted :
+  exists pre,
+    let s := run _ _ (tstep2 false) (tinit2, [HRun; CSelect true; TFire; GOpen]) pre in
+    snd s = [HSend; CRet true; TFired; GOpened] /\ (forall sched, run _ _ (tstep2 false) s sched = s).
+Proof. exact unbuffered_result_channel_refuted. Qed.
+Print Assumptions C16_unbuffered_result_channel_refuted.
+
 (* non-vacuity: concrete thread lists satisfy the hypotheses of (1) - (6) *)
 Theorem C16_premises_satisfiable :
   forallb d_initial [DStart; DStart; AAdd {| h_id := 7; h_fail := true |}; DStart] = true /\
